@@ -66,6 +66,19 @@ CHECKS = {
         ref="DESIGN.md section 5 C17"),
 }
 
+CHECKS["C19"] = dict(
+    engine="Z", category="other",
+    text="bounded symbolic verification: each correlation / closed-form relation is executed on z3 reals in unitless mode and with a "
+         "units namespace whose base units are free positive reals (plus constants objects built on it); z3 proves "
+         "units_result == unitless_result * unit for ALL unit scales (same physical value in any compatible units, result dimension), "
+         "the defining formula, 'range warning <=> input outside the documented range' on every path, inverse helpers, and shape lemmas "
+         "(density maximum at 3.98 C, viscosity decreasing); published anchor values by exact evaluation of the executed term",
+    note="idealised units stub (commutative group with real scaling): behaviour of the real `quantities` package that deviates from it "
+         "(the statement's Nernst example: math.log of an unsimplified quantity) is outside; sulfuric_acid_density and "
+         "density_from_concentration (float()/numpy/iteration) not applicable; transcendental functions uninterpreted + ground facts; "
+         "temperatures within [0.8*lo, 1.2*hi] of each range",
+    technique=Z + " with uninterpreted transcendental functions and argument matching", ref="DESIGN.md section 5 C19")
+
 NA = {
     "C09": "property is about float conversion factors produced inside the 'quantities' package and numpy array helpers; no symbolic "
            "value survives to_unitless (float(result)), and symbolic magnitudes alone would only re-prove linearity (DESIGN.md section 6)",
